@@ -95,6 +95,58 @@ def run(cx):
     r3(cx)
     r4(cx)
     r5(cx)
+    cx.rule("C01.R6", "TS", "a task that ends during exec / update is emitted in its final state before control returns (the ending is told: the parent is reviewed from there)")
+    r6(cx)
+
+
+class EndToldMon(T.Monitor):
+    """(state, site) of a terminal write on the tracked task that has not been emitted yet"""
+    init = None
+
+    def on_event(self, mon, ev):
+        if ev[0] == "WRITE":
+            return (ev[2], ev[3], ev[4]) if ev[2] in T.TERMINAL else None
+        if ev[0] == "EMIT_EVENT" and mon is not None and ev[1] == mon[0]:
+            return None
+        return mon
+
+    def on_exit(self, mon, s, kind):
+        if mon is not None and kind in ("OK", "UNIT") and s == mon[0]:
+            return mon
+        return None
+
+
+def r6(cx):
+    m = cx.m
+    eng, _ = engine(cx)
+    from rules.c02 import site_key
+    found = {}
+    sites = set()
+
+    class Collect(T.Monitor):
+        init = 0
+
+        def on_event(self, mon, ev):
+            if ev[0] == "WRITE" and ev[2] in T.TERMINAL:
+                sites.add((ev[3], ev[4]))
+            return mon
+    for f, label in ((m.one(r"^%s::exec$" % TASK), "exec"), (m.one(r"^%s::update$" % TASK), "update")):
+        for s0 in T.STATES:
+            for payload, path in eng.run(f, s0, EndToldMon()):
+                S, q, b = payload
+                found.setdefault((q, b), (S, label, s0, path))
+            eng.run(f, s0, Collect())
+    for (q, b) in sorted(sites):
+        f = m.fns[q]
+        k = site_key(m, q, b)
+        if (q, b) in found:
+            S, label, s0, path = found[(q, b)]
+            cx.ob("C01.R6", "end-told:%s" % k, False,
+                  "the task is written %s at `%s` and `%s` (entered in %s) returns Ok without emitting it in that state: nobody learns that it ended "
+                  "(no terminal event, its parent is never reviewed)" % (S, k, label, s0), f.loc(b), path=[T.fmt_event(m, e) for e in path[-6:]])
+        else:
+            cx.ob("C01.R6", "end-told:%s" % k, True, "after the terminal write at `%s` every Ok exit of exec / update has emitted the task in that state" % k, f.loc(b))
+    cx.floor("C01.R6", 15)
 
 
 def r1(cx):
